@@ -4,7 +4,7 @@
 (* starts a scenario (one program, one cache directory); every "run" record is one request with     *)
 (* its configuration and everything observed.  The oracle is SeqExec of Exec.tla; the hand-off is   *)
 (* the reference of Plan.tla.                                                                       *)
-EXTENDS Exec, Plan, Json, IOUtils
+EXTENDS Exec, Plan, Pipeline, Json, IOUtils
 
 Trace == ndJsonDeserialize(IOEnv.VERIF_TRACE)
 VARIABLES l, bad, drift, prog, seg, ref, orig
@@ -222,6 +222,24 @@ ForkFails(r) ==
   \o F([i \in DOMAIN heldFork |-> heldFork[i].id] = [i \in DOMAIN canonFork |-> canonFork[i].id], "client_does_not_converge_on_canonical_chain")
   \o F(\A i \in DOMAIN o.resp : o.resp[i].kind = "data" => o.resp[i].num >= c.start, "data_below_start_block" \o SAJ)
 
+\* the message-level transcription of the pipeline (Pipeline.tla, model-checked by MCPipeline) against the observed stream:
+\* data / undo messages, in order, for the blocks the pipeline received as steps (drift, not a verdict)
+ToStep(s) == [k |-> IF s.step \in {"new", "newirr"} THEN "new" ELSE IF s.step = "undo" THEN "undo"
+                    ELSE IF s.step = "irr" THEN "final" ELSE "stalled",
+              b |-> [h |-> s.num, br |-> s.id], j |-> [h |-> s.jnum, br |-> s.junction]]
+ForkDrift(r) ==
+  LET steps == r.steps  o == r.obs
+      first == IF steps = <<>> THEN 0 ELSE steps[1].num
+      cut == IF \E k \in DOMAIN steps : steps[k].step \in {"new", "newirr"} /\ steps[k].num >= r.cfg.stop
+             THEN (CHOOSE k \in DOMAIN steps : steps[k].step \in {"new", "newirr"} /\ steps[k].num >= r.cfg.stop /\
+                        \A k2 \in 1..(k - 1) : ~(steps[k2].step \in {"new", "newirr"} /\ steps[k2].num >= r.cfg.stop)) - 1
+             ELSE Len(steps)
+      pred == PMsgs(PInit, [i \in 1..cut |-> ToStep(steps[i])], r.cfg.start)
+      seen == SelectSeq(o.resp, LAMBDA m : m.kind = "undo" \/ (m.kind = "data" /\ m.num >= first))
+      obs == [i \in DOMAIN seen |-> [k |-> seen[i].kind, b |-> [h |-> seen[i].num, br |-> seen[i].id]]]
+  IN IF o.panic # "" \/ o.err # "" \/ steps = <<>> \/ (\E k \in DOMAIN steps : steps[k].step = "undo" /\ steps[k].junction = "") THEN <<>>
+     ELSE F(pred = obs, "drift:fork_messages_differ_from_pipeline_model")
+
 ForkProps(sig) == IF Len(sig) >= 22 /\ SubSeq(sig, 1, 22) = "data_below_start_block" THEN <<"C03", "C04">>
                   ELSE IF Len(sig) >= 14 /\ SubSeq(sig, 1, 14) = "request_failed" THEN <<"C03", "C01">>
                   ELSE IF sig = "store_size_drifted_after_reorg" THEN <<"C03", "C11">> ELSE <<"C03">>
@@ -255,7 +273,8 @@ Next ==
      ELSE IF r.ev = "forkrun" THEN
         LET f == TagFork(ForkFails(r)) IN
         /\ bad' = IF f = <<>> THEN bad ELSE Append(bad, [i |-> l, why |-> f, dbg |-> <<>>])
-        /\ UNCHANGED <<drift, prog, seg, ref, orig>>
+        /\ drift' = LET d == ForkDrift(r) IN IF d = <<>> THEN drift ELSE Append(drift, [i |-> l, why |-> d])
+        /\ UNCHANGED <<prog, seg, ref, orig>>
      ELSE
         LET from == IF r.cfg.cursor = "" THEN 0 ELSE ParseFrom(r.cfg.cursor)
             f == TagAll(RunFails(r, from) \o ResumeFails(r, from), r)
